@@ -142,14 +142,21 @@ func (lm *LocalManager) connect(local, remote Address, s Suite) (*LocalConn, err
 // It returns ErrClosed if it does not find the connection.
 func (lm *LocalManager) send(e endpoint, msg []byte) error {
 	lm.Lock()
-	defer lm.Unlock()
 	q, ok := lm.conns[e]
+	lm.Unlock()
 	if !ok {
 		return xerrors.Errorf("closing: %w", ErrClosed)
 	}
 
-	q.incomingQueue <- msg
-	return nil
+	// Wait for room WITHOUT the manager's lock: a receiver that does not read
+	// must neither stop the other connections of this manager nor the closing
+	// of this one.
+	select {
+	case q.incomingQueue <- msg:
+		return nil
+	case <-q.closeCh:
+		return xerrors.Errorf("closing: %w", ErrClosed)
+	}
 }
 
 // close gets the connection denoted by this endpoint and closes it if
@@ -259,15 +266,21 @@ func (lc *LocalConn) start(wg *sync.WaitGroup) {
 	for {
 		select {
 		case buff := <-lc.incomingQueue:
-			lc.outgoingQueue <- buff
+			// the reader may never come back: closing must get through
+			// even while the outgoing queue is full
+			select {
+			case lc.outgoingQueue <- buff:
+				continue
+			case <-lc.closeCh:
+			}
 		case <-lc.closeCh:
-			// to signal that the conn is closed
-			close(lc.outgoingQueue)
-			close(lc.incomingQueue)
-			lc.closeConfirm <- true
-			wg.Done()
-			return
 		}
+		// to signal that the conn is closed. The incoming queue stays open:
+		// a sender may still be waiting on it (it watches closeCh as well).
+		close(lc.outgoingQueue)
+		lc.closeConfirm <- true
+		wg.Done()
+		return
 	}
 }
 
